@@ -9,10 +9,11 @@ import PdshVerif.Cbuf.Ops
 
 namespace PdshVerif.Cbuf
 
-def absR (c : Cbuf) : Spec.RFifo := { f := abs c, hist := hist c }
+def absR (c : Cbuf) : Spec.RFifo := { f := abs c, hist := hist c, wrapped := c.gotWrap }
 
 @[simp] theorem absR_f (c : Cbuf) : (absR c).f = abs c := rfl
 @[simp] theorem absR_hist (c : Cbuf) : (absR c).hist = hist c := rfl
+@[simp] theorem absR_wrapped (c : Cbuf) : (absR c).wrapped = c.gotWrap := rfl
 
 /-- the two buffers have the same cells and the same ends of the region i_rep .. i_in -/
 structure SameCells (c c' : Cbuf) : Prop where
@@ -250,6 +251,7 @@ theorem readToFd_refines {c : Cbuf} (hi : Inv c) (len : Int) (cap : Nat) :
       simp only [absR_hist, absR_f, abs_q, contents_length, List.length_drop]
       have e : c.used - (c.used - bs.length) = bs.length := by omega
       rw [e, ← hb]
+      rfl
     · simp only [hn, if_false]
       rw [hb0 hn]
       simp [absR, abs]
